@@ -31,14 +31,34 @@ func (regWorld) Name() string { return "W-REG" }
 
 var regNamePool = []string{"http://sim.example/psa/a", "http://sim.example/psa/b", "http://sim.example/psa/c", "urn:sim:psa:d",
 	"http://sim.example/psa/e", "https://sim.example/f", "http://sim.example/psa/g", "http://sim.example/h",
-	"ACME_IOT_PROFILE_7", "sim profile 8"}
+	"ACME_IOT_PROFILE_7", "sim profile 8", "ACME_IOT_PROFILE_7 ", " SIM_PADDED "}
+
+// nameVariants: spellings that differ from a name only by letter case or by
+// surrounding white space. They are different names; unless registered
+// themselves they must stay unknown.
+func nameVariants(names []string) []string {
+	have := map[string]bool{}
+	for _, n := range names {
+		have[n] = true
+	}
+	var out []string
+	for _, n := range names {
+		for _, v := range []string{strings.ToLower(n), strings.ToUpper(n), " " + n, n + " ", strings.TrimSpace(n)} {
+			if !have[v] && v != "" {
+				have[v] = true
+				out = append(out, v)
+			}
+		}
+	}
+	return out
+}
 
 const unknownName = "http://unknown.example/never-registered"
 
-var regKinds = []string{"xp2", "xp1", "own", "opt", "two", "str", "xp2", "xp1", "own", "opt", "two", "str", "noprof", "notag"}
+var regKinds = []string{"xp2", "xp1", "own", "opt", "two", "str", "xp1n", "loca", "locb", "xp2", "xp1", "own", "opt", "two", "str", "xp1n", "loca", "locb", "noprof", "notag"}
 
 // kinds whose claims carry an eat.Profile, i.e. whose name must be a URI or an OID
-var kindNeedsURI = map[string]bool{"xp2": true, "own": true, "opt": true, "two": true}
+var kindNeedsURI = map[string]bool{"xp2": true, "own": true, "opt": true, "two": true, "loca": true, "locb": true}
 
 func isURIName(n string) bool {
 	p := eat.Profile{}
@@ -46,12 +66,14 @@ func isURIName(n string) bool {
 }
 
 func goodKind(k string) bool {
-	return k == "xp1" || k == "xp2" || k == "own" || k == "opt" || k == "two" || k == "str"
+	return k == "xp1" || k == "xp2" || k == "own" || k == "opt" || k == "two" || k == "str" || k == "xp1n" || k == "loca" || k == "locb"
 }
 
 var kindType = map[string]string{"p1": "*psatoken.P1Claims", "p2": "*psatoken.P2Claims", "xp1": "*main.XP1Claims",
-	"xp2": "*main.XP2Claims", "own": "*main.XOwnClaims", "opt": "*main.XOptClaims", "two": "*main.XTwoClaims", "str": "*main.XStrClaims"}
-var kindTag = map[string]string{"p1": "psa-profile", "p2": "eat-profile", "xp1": "psa-profile", "xp2": "eat-profile", "own": "own-profile", "opt": "opt-profile", "two": "eat-profile", "str": "str-profile"}
+	"xp2": "*main.XP2Claims", "own": "*main.XOwnClaims", "opt": "*main.XOptClaims", "two": "*main.XTwoClaims", "str": "*main.XStrClaims",
+	"xp1n": "*main.XP1Claims", "loca": "*main.claims", "locb": "*main.claims"}
+var kindTag = map[string]string{"p1": "psa-profile", "p2": "eat-profile", "xp1": "psa-profile", "xp2": "eat-profile", "own": "own-profile", "opt": "opt-profile", "two": "eat-profile", "str": "str-profile",
+	"xp1n": "psa-profile", "loca": "la-profile", "locb": "lb-profile"}
 
 func profileOfKind(kind, name string) psatoken.IProfile {
 	switch kind {
@@ -67,6 +89,12 @@ func profileOfKind(kind, name string) psatoken.IProfile {
 		return XTwoProfile{name}
 	case "str":
 		return XStrProfile{name}
+	case "xp1n":
+		return XP1NProfile{name}
+	case "loca":
+		return localProfileA(name)
+	case "locb":
+		return localProfileB(name)
 	case "noprof":
 		return NoProfProfile{name}
 	case "notag":
@@ -89,6 +117,7 @@ func (regWorld) Gen(prop, tier string, idx int, r *Rng) *Trace {
 		cfg.Names = append(cfg.Names, regNamePool[perm[i]])
 	}
 	all := append(append([]string{}, cfg.Names...), psatoken.Profile1Name, psatoken.Profile2Name)
+	variants := nameVariants(all)
 	n := r.Range(1, 40)
 	w := []int{4, 2, 6, 2, 1}
 	if prop == "C07" {
@@ -107,7 +136,8 @@ func (regWorld) Gen(prop, tier string, idx int, r *Rng) *Trace {
 			ops = append(ops, op)
 			registered++
 		case 1:
-			ops = append(ops, Op{K: "newclaims", S: append(all, unknownName)[r.Intn(len(all)+1)]})
+			cands := append(append(append([]string{}, all...), unknownName), variants...)
+			ops = append(ops, Op{K: "newclaims", S: cands[r.Intn(len(cands))]})
 		case 2:
 			op := Op{K: "dispatch", A: r.Intn(1 << 16), L: []int{r.Intn(1000), r.Intn(1000), r.Intn(1000), r.Intn(1000), r.Intn(1000), r.Intn(1000)}}
 			op.D = 2
@@ -213,6 +243,22 @@ func buildRegProbes(names []string) []regProbe {
 		}
 	}
 	all := append(append([]string{}, names...), psatoken.Profile1Name, psatoken.Profile2Name, unknownName)
+	// case / white-space variants of every name: never registered by themselves unless they are pool names
+	for _, v := range nameVariants(append(append([]string{}, names...), psatoken.Profile1Name, psatoken.Profile2Name)) {
+		v := v
+		dn := *p1
+		dn.ProfClaim = nil
+		if c := enc(dn, false); c != nil {
+			if h, err := readHead(c, 0); err == nil && h.Major == 5 && h.Info != 31 {
+				nb := append([]byte{}, encodeHead(5, h.Arg+1)...)
+				nb = append(nb, c[h.HLen:]...)
+				nb = append(nb, 0x19, 0x01, 0x09)
+				nb = append(nb, encodeHead(3, uint64(len(v)))...)
+				nb = append(nb, v...)
+				add(regProbe{name: fmt.Sprintf("cbor/p1 body+265=%q (variant)", v), ser: "cbor", doc: nb, declares: []string{v}, c265: &v})
+			}
+		}
+	}
 	for _, n := range all {
 		n := n
 		d2 := *p2
@@ -250,6 +296,24 @@ func buildRegProbes(names []string) []regProbe {
 		if j := enc(dn, true); j != nil {
 			add(regProbe{name: "json/str-profile=" + n, ser: "json", doc: jsonEdit(jsonEdit(j, "psa-profile", "", true), "str-profile", quote(n), false), declares: []string{n},
 				members: map[string]string{"str-profile": n}})
+		}
+		// a value only an extension's own Validate() objects to (negative sim-extra)
+		if c := enc(d2, false); c != nil {
+			if h, err := readHead(c, 0); err == nil && h.Major == 5 && h.Info != 31 {
+				nb := append([]byte{}, encodeHead(5, h.Arg+1)...)
+				nb = append(nb, c[h.HLen:]...)
+				nb = append(nb, encodeHead(1, 75099)...)
+				nb = append(nb, 0x24)
+				add(regProbe{name: "cbor/265=" + n + " sim-extra=-5", ser: "cbor", doc: nb, declares: []string{n}, c265: &n})
+			}
+		}
+		if j := enc(d2, true); j != nil {
+			add(regProbe{name: "json/eat-profile=" + n + " sim-extra=-5", ser: "json", doc: jsonEdit(j, "sim-extra", "-5", false), declares: []string{n}, members: map[string]string{"eat-profile": n}})
+			add(regProbe{name: "json/la-profile=" + n, ser: "json", doc: jsonEdit(j, "la-profile", quote(n), false), declares: []string{n}, members: map[string]string{"eat-profile": n, "la-profile": n}})
+			add(regProbe{name: "json/lb-profile=" + n, ser: "json", doc: jsonEdit(j, "lb-profile", quote(n), false), declares: []string{n}, members: map[string]string{"eat-profile": n, "lb-profile": n}})
+		}
+		if j := enc(d1, true); j != nil {
+			add(regProbe{name: "json/psa-profile=" + n + " sim-extra=-5", ser: "json", doc: jsonEdit(j, "sim-extra", "-5", false), declares: []string{n}, members: map[string]string{"psa-profile": n}})
 		}
 		if j := enc(d2, true); j != nil {
 			add(regProbe{name: "json/own-profile=" + n, ser: "json", doc: jsonEdit(j, "own-profile", quote(n), false), declares: []string{n},
@@ -537,6 +601,7 @@ func (regWorld) Exec(prop string, t *Trace) *Result {
 		return res
 	}
 	allNames := append(append([]string{}, cfg.Names...), psatoken.Profile1Name, psatoken.Profile2Name, unknownName)
+	allNames = append(allNames, nameVariants(allNames[:len(allNames)-1])...)
 
 	snapshot := func() []string {
 		out := make([]string, 0, len(probes)+len(allNames))
